@@ -497,6 +497,200 @@ def fp_drpcctx_tracker_Tracker_track : List String :=
   ["call:cb", "call:t.wg.Done"]
 def fp_drpcctx_tracker_Tracker_Wait : List String :=
   ["call:t.wg.Wait"]
+def fp_cmd_protoc_gen_go_drpc_main_main : List String :=
+  ["call:flags.StringVar", "u&", "s:protolib", "s:google.golang.org/protobuf", "s:which protobuf library to use for encoding", 
+    "call:flags.BoolVar", "u&", "s:json", "s:generate encoders with json support", "call:?.Run", 
+    "for", "if", "||", "u!", "==", "call:len", "0", "continue", "call:generateFile", "call:uint64", 
+    "return"]
+def fp_cmd_protoc_gen_go_drpc_main_generateFile : List String :=
+  ["call:plugin.NewGeneratedFile", "+", "s:_drpc.pb.go", "u&", "call:d.P", "s:// Code generated by protoc-gen-go-drpc. DO NOT EDIT.", 
+    "if", "call:debug.ReadBuildInfo", "call:d.P", "s:// protoc-gen-go-drpc version: ", "call:d.P", 
+    "s:// source: ", "call:file.Desc.Path", "call:d.P", "call:d.P", "s:package ", "call:d.P", "call:d.generateEncoding", 
+    "for", "call:d.generateService"]
+def fp_cmd_protoc_gen_go_drpc_main_drpc_EncodingName : List String :=
+  ["return", "+", "s:drpcEncoding_"]
+def fp_cmd_protoc_gen_go_drpc_main_drpc_RPCGoString : List String :=
+  ["return", "call:strconv.Quote", "call:fmt.Sprintf", "s:/%s/%s", "call:method.Parent.Desc.FullName", 
+    "call:method.Desc.Name"]
+def fp_cmd_protoc_gen_go_drpc_main_drpc_ClientIface : List String :=
+  ["return", "+", "+", "s:DRPC", "s:Client"]
+def fp_cmd_protoc_gen_go_drpc_main_drpc_ClientImpl : List String :=
+  ["return", "+", "+", "s:drpc", "s:Client"]
+def fp_cmd_protoc_gen_go_drpc_main_drpc_ServerIface : List String :=
+  ["return", "+", "+", "s:DRPC", "s:Server"]
+def fp_cmd_protoc_gen_go_drpc_main_drpc_ServerUnimpl : List String :=
+  ["return", "+", "+", "s:DRPC", "s:UnimplementedServer"]
+def fp_cmd_protoc_gen_go_drpc_main_drpc_ServerDesc : List String :=
+  ["return", "+", "+", "s:DRPC", "s:Description"]
+def fp_cmd_protoc_gen_go_drpc_main_drpc_ClientStreamIface : List String :=
+  ["return", "+", "+", "+", "+", "s:DRPC", "call:strings.ReplaceAll", "s:_", "s:__", "s:_", "call:strings.ReplaceAll", 
+    "s:_", "s:__", "s:Client"]
+def fp_cmd_protoc_gen_go_drpc_main_drpc_ClientStreamImpl : List String :=
+  ["return", "+", "+", "+", "+", "s:drpc", "call:strings.ReplaceAll", "s:_", "s:__", "s:_", "call:strings.ReplaceAll", 
+    "s:_", "s:__", "s:Client"]
+def fp_cmd_protoc_gen_go_drpc_main_drpc_ServerStreamIface : List String :=
+  ["return", "+", "+", "+", "+", "s:DRPC", "call:strings.ReplaceAll", "s:_", "s:__", "s:_", "call:strings.ReplaceAll", 
+    "s:_", "s:__", "s:Stream"]
+def fp_cmd_protoc_gen_go_drpc_main_drpc_ServerStreamImpl : List String :=
+  ["return", "+", "+", "+", "+", "s:drpc", "call:strings.ReplaceAll", "s:_", "s:__", "s:_", "call:strings.ReplaceAll", 
+    "s:_", "s:__", "s:Stream"]
+def fp_cmd_protoc_gen_go_drpc_main_drpc_generateEncoding : List String :=
+  ["call:d.P", "s:type ", "call:d.EncodingName", "s: struct{}", "call:d.P", "switch", "case", 
+    "s:google.golang.org/protobuf", "call:d.P", "s:func (", "call:d.EncodingName", "s:) Marshal(msg ", 
+    "call:d.Ident", "s:storj.io/drpc", "s:Message", "s:) ([]byte, error) {", "call:d.P", "s:return ", 
+    "call:d.Ident", "s:google.golang.org/protobuf/proto", "s:Marshal", "s:(msg.(", "call:d.Ident", 
+    "s:google.golang.org/protobuf/proto", "s:Message", "s:))", "call:d.P", "s:}", "call:d.P", "call:d.P", 
+    "s:func (", "call:d.EncodingName", "s:) MarshalAppend(buf []byte, msg ", "call:d.Ident", "s:storj.io/drpc", 
+    "s:Message", "s:) ([]byte, error) {", "call:d.P", "s:return ", "call:d.Ident", "s:google.golang.org/protobuf/proto", 
+    "s:MarshalOptions", "s:{}.MarshalAppend(buf, msg.(", "call:d.Ident", "s:google.golang.org/protobuf/proto", 
+    "s:Message", "s:))", "call:d.P", "s:}", "call:d.P", "call:d.P", "s:func (", "call:d.EncodingName", 
+    "s:) Unmarshal(buf []byte, msg ", "call:d.Ident", "s:storj.io/drpc", "s:Message", "s:) error {", 
+    "call:d.P", "s:return ", "call:d.Ident", "s:google.golang.org/protobuf/proto", "s:Unmarshal", 
+    "s:(buf, msg.(", "call:d.Ident", "s:google.golang.org/protobuf/proto", "s:Message", "s:))", 
+    "call:d.P", "s:}", "call:d.P", "if", "call:d.P", "s:func (", "call:d.EncodingName", "s:) JSONMarshal(msg ", 
+    "call:d.Ident", "s:storj.io/drpc", "s:Message", "s:) ([]byte, error) {", "call:d.P", "s:return ", 
+    "call:d.Ident", "s:google.golang.org/protobuf/encoding/protojson", "s:Marshal", "s:(msg.(", 
+    "call:d.Ident", "s:google.golang.org/protobuf/proto", "s:Message", "s:))", "call:d.P", "s:}", 
+    "call:d.P", "call:d.P", "s:func (", "call:d.EncodingName", "s:) JSONUnmarshal(buf []byte, msg ", 
+    "call:d.Ident", "s:storj.io/drpc", "s:Message", "s:) error {", "call:d.P", "s:return ", "call:d.Ident", 
+    "s:google.golang.org/protobuf/encoding/protojson", "s:Unmarshal", "s:(buf, msg.(", "call:d.Ident", 
+    "s:google.golang.org/protobuf/proto", "s:Message", "s:))", "call:d.P", "s:}", "call:d.P", "case", 
+    "s:github.com/gogo/protobuf", "call:d.P", "s:func (", "call:d.EncodingName", "s:) Marshal(msg ", 
+    "call:d.Ident", "s:storj.io/drpc", "s:Message", "s:) ([]byte, error) {", "call:d.P", "s:return ", 
+    "call:d.Ident", "s:github.com/gogo/protobuf/proto", "s:Marshal", "s:(msg.(", "call:d.Ident", 
+    "s:github.com/gogo/protobuf/proto", "s:Message", "s:))", "call:d.P", "s:}", "call:d.P", "call:d.P", 
+    "s:func (", "call:d.EncodingName", "s:) MarshalAppend(buf []byte, msg ", "call:d.Ident", "s:storj.io/drpc", 
+    "s:Message", "s:) ([]byte, error) {", "call:d.P", "s:pbuf := ", "call:d.Ident", "s:github.com/gogo/protobuf/proto", 
+    "s:NewBuffer", "s:(buf)", "call:d.P", "s:if err := pbuf.Marshal(msg.(", "call:d.Ident", "s:github.com/gogo/protobuf/proto", 
+    "s:Message", "s:)); err != nil {", "call:d.P", "s:return nil, err", "call:d.P", "s:}", "call:d.P", 
+    "s:return pbuf.Bytes(), nil", "call:d.P", "s:}", "call:d.P", "call:d.P", "s:func (", "call:d.EncodingName", 
+    "s:) Unmarshal(buf []byte, msg ", "call:d.Ident", "s:storj.io/drpc", "s:Message", "s:) error {", 
+    "call:d.P", "s:return ", "call:d.Ident", "s:github.com/gogo/protobuf/proto", "s:Unmarshal", 
+    "s:(buf, msg.(", "call:d.Ident", "s:github.com/gogo/protobuf/proto", "s:Message", "s:))", "call:d.P", 
+    "s:}", "call:d.P", "if", "call:d.P", "s:func (", "call:d.EncodingName", "s:) JSONMarshal(msg ", 
+    "call:d.Ident", "s:storj.io/drpc", "s:Message", "s:) ([]byte, error) {", "call:d.P", "s:var buf ", 
+    "call:d.Ident", "s:bytes", "s:Buffer", "call:d.P", "s:err := new(", "call:d.Ident", "s:github.com/gogo/protobuf/jsonpb", 
+    "s:Marshaler", "s:).Marshal(&buf, msg.(", "call:d.Ident", "s:github.com/gogo/protobuf/proto", 
+    "s:Message", "s:))", "call:d.P", "s:if err != nil {", "call:d.P", "s:return nil, err", "call:d.P", 
+    "s:}", "call:d.P", "s:return buf.Bytes(), nil", "call:d.P", "s:}", "call:d.P", "call:d.P", 
+    "s:func (", "call:d.EncodingName", "s:) JSONUnmarshal(buf []byte, msg ", "call:d.Ident", "s:storj.io/drpc", 
+    "s:Message", "s:) error {", "call:d.P", "s:return ", "call:d.Ident", "s:github.com/gogo/protobuf/jsonpb", 
+    "s:Unmarshal", "s:(", "call:d.Ident", "s:bytes", "s:NewReader", "s:(buf), msg.(", "call:d.Ident", 
+    "s:github.com/gogo/protobuf/proto", "s:Message", "s:))", "call:d.P", "s:}", "call:d.P", "default", 
+    "call:d.P", "s:func (", "call:d.EncodingName", "s:) Marshal(msg ", "call:d.Ident", "s:storj.io/drpc", 
+    "s:Message", "s:) ([]byte, error) {", "call:d.P", "s:return ", "call:d.Ident", "s:Marshal", 
+    "s:(msg)", "call:d.P", "s:}", "call:d.P", "call:d.P", "s:func (", "call:d.EncodingName", "s:) Unmarshal(buf []byte, msg ", 
+    "call:d.Ident", "s:storj.io/drpc", "s:Message", "s:) error {", "call:d.P", "s:return ", "call:d.Ident", 
+    "s:Unmarshal", "s:(buf, msg)", "call:d.P", "s:}", "call:d.P", "if", "call:d.P", "s:func (", 
+    "call:d.EncodingName", "s:) JSONMarshal(msg ", "call:d.Ident", "s:storj.io/drpc", "s:Message", 
+    "s:) ([]byte, error) {", "call:d.P", "s:return ", "call:d.Ident", "s:JSONMarshal", "s:(msg)", 
+    "call:d.P", "s:}", "call:d.P", "call:d.P", "s:func (", "call:d.EncodingName", "s:) JSONUnmarshal(buf []byte, msg ", 
+    "call:d.Ident", "s:storj.io/drpc", "s:Message", "s:) error {", "call:d.P", "s:return ", "call:d.Ident", 
+    "s:JSONUnmarshal", "s:(buf, msg)", "call:d.P", "s:}", "call:d.P"]
+def fp_cmd_protoc_gen_go_drpc_main_drpc_generateService : List String :=
+  ["call:d.P", "s:type ", "call:d.ClientIface", "s: interface {", "call:d.P", "s:DRPCConn() ", 
+    "call:d.Ident", "s:storj.io/drpc", "s:Conn", "call:d.P", "for", "call:d.P", "call:d.generateClientSignature", 
+    "call:d.P", "s:}", "call:d.P", "call:d.P", "s:type ", "call:d.ClientImpl", "s: struct {", "call:d.P", 
+    "s:cc ", "call:d.Ident", "s:storj.io/drpc", "s:Conn", "call:d.P", "s:}", "call:d.P", "call:d.P", 
+    "s:func New", "call:d.ClientIface", "s:(cc ", "call:d.Ident", "s:storj.io/drpc", "s:Conn", 
+    "s:) ", "call:d.ClientIface", "s: {", "call:d.P", "s:return &", "call:d.ClientImpl", "s:{cc}", 
+    "call:d.P", "s:}", "call:d.P", "call:d.P", "s:func (c *", "call:d.ClientImpl", "s:) DRPCConn() ", 
+    "call:d.Ident", "s:storj.io/drpc", "s:Conn", "s:{ return c.cc }", "call:d.P", "for", "call:d.generateClientMethod", 
+    "call:d.P", "s:type ", "call:d.ServerIface", "s: interface {", "for", "call:d.P", "call:d.generateServerSignature", 
+    "call:d.P", "s:}", "call:d.P", "call:d.P", "s:type ", "call:d.ServerUnimpl", "s: struct {}", 
+    "call:d.P", "for", "call:d.generateUnimplementedServerMethod", "call:d.P", "call:d.P", "s:type ", 
+    "call:d.ServerDesc", "s: struct{}", "call:d.P", "call:d.P", "s:func (", "call:d.ServerDesc", 
+    "s:) NumMethods() int { return ", "call:len", "s: }", "call:d.P", "call:d.P", "s:func (", "call:d.ServerDesc", 
+    "s:) Method(n int) (string, ", "call:d.Ident", "s:storj.io/drpc", "s:Encoding", "s:, ", "call:d.Ident", 
+    "s:storj.io/drpc", "s:Receiver", "s:, interface{}, bool) {", "call:d.P", "s:switch n {", "for", 
+    "call:d.P", "s:case ", "s::", "call:d.P", "s:return ", "call:d.RPCGoString", "s:, ", "call:d.EncodingName", 
+    "s:{}, ", "call:d.generateServerReceiver", "call:d.P", "s:}, ", "call:d.ServerIface", "s:.", 
+    "s:, true", "call:d.P", "s:default:", "call:d.P", "s:return \"\", nil, nil, nil, false", "call:d.P", 
+    "s:}", "call:d.P", "s:}", "call:d.P", "call:d.P", "s:func DRPCRegister", "s:(mux ", "call:d.Ident", 
+    "s:storj.io/drpc", "s:Mux", "s:, impl ", "call:d.ServerIface", "s:) error {", "call:d.P", "s:return mux.Register(impl, ", 
+    "call:d.ServerDesc", "s:{})", "call:d.P", "s:}", "for", "call:d.generateServerMethod"]
+def fp_cmd_protoc_gen_go_drpc_main_drpc_generateClientSignature : List String :=
+  ["+", "s:, in *", "call:d.InputType", "if", "call:method.Desc.IsStreamingClient", "s:", "+", 
+    "s:*", "call:d.OutputType", "if", "||", "call:method.Desc.IsStreamingServer", "call:method.Desc.IsStreamingClient", 
+    "call:d.ClientStreamIface", "return", "call:fmt.Sprintf", "s:%s(ctx %s%s) (%s, error)", "call:d.Ident", 
+    "s:context", "s:Context"]
+def fp_cmd_protoc_gen_go_drpc_main_drpc_generateClientMethod : List String :=
+  ["call:d.ClientImpl", "call:d.OutputType", "call:d.InputType", "call:d.P", "s:func (c *", "s:) ", 
+    "call:d.generateClientSignature", "s:{", "if", "&&", "u!", "call:method.Desc.IsStreamingServer", 
+    "u!", "call:method.Desc.IsStreamingClient", "call:d.P", "s:out := new(", "s:)", "call:d.P", 
+    "s:err := c.cc.Invoke(ctx, ", "call:d.RPCGoString", "s:, ", "call:d.EncodingName", "s:{}, in, out)", 
+    "call:d.P", "s:if err != nil { return nil, err }", "call:d.P", "s:return out, nil", "call:d.P", 
+    "s:}", "call:d.P", "return", "call:d.P", "s:stream, err := c.cc.NewStream(ctx, ", "call:d.RPCGoString", 
+    "s:, ", "call:d.EncodingName", "s:{})", "call:d.P", "s:if err != nil { return nil, err }", 
+    "call:d.P", "s:x := &", "call:d.ClientStreamImpl", "s:{stream}", "if", "u!", "call:method.Desc.IsStreamingClient", 
+    "call:d.P", "s:if err := x.MsgSend(in, ", "call:d.EncodingName", "s:{}); err != nil { return nil, err }", 
+    "call:d.P", "s:if err := x.CloseSend(); err != nil { return nil, err }", "call:d.P", "s:return x, nil", 
+    "call:d.P", "s:}", "call:d.P", "call:method.Desc.IsStreamingClient", "call:method.Desc.IsStreamingServer", 
+    "u!", "call:method.Desc.IsStreamingServer", "call:d.P", "s:type ", "call:d.ClientStreamIface", 
+    "s: interface {", "call:d.P", "call:d.Ident", "s:storj.io/drpc", "s:Stream", "if", "call:d.P", 
+    "s:Send(*", "s:) error", "if", "call:d.P", "s:Recv() (*", "s:, error)", "if", "call:d.P", "s:CloseAndRecv() (*", 
+    "s:, error)", "call:d.P", "s:}", "call:d.P", "call:d.P", "s:type ", "call:d.ClientStreamImpl", 
+    "s: struct {", "call:d.P", "call:d.Ident", "s:storj.io/drpc", "s:Stream", "call:d.P", "s:}", 
+    "call:d.P", "call:d.P", "s:func (x *", "call:d.ClientStreamImpl", "s:) GetStream() drpc.Stream {", 
+    "call:d.P", "s:return x.Stream", "call:d.P", "s:}", "call:d.P", "if", "call:d.P", "s:func (x *", 
+    "call:d.ClientStreamImpl", "s:) Send(m *", "s:) error {", "call:d.P", "s:return x.MsgSend(m, ", 
+    "call:d.EncodingName", "s:{})", "call:d.P", "s:}", "call:d.P", "if", "call:d.P", "s:func (x *", 
+    "call:d.ClientStreamImpl", "s:) Recv() (*", "s:, error) {", "call:d.P", "s:m := new(", "s:)", 
+    "call:d.P", "s:if err := x.MsgRecv(m, ", "call:d.EncodingName", "s:{}); err != nil { return nil, err }", 
+    "call:d.P", "s:return m, nil", "call:d.P", "s:}", "call:d.P", "call:d.P", "s:func (x *", "call:d.ClientStreamImpl", 
+    "s:) RecvMsg(m *", "s:) error {", "call:d.P", "s:return x.MsgRecv(m, ", "call:d.EncodingName", 
+    "s:{})", "call:d.P", "s:}", "call:d.P", "if", "call:d.P", "s:func (x *", "call:d.ClientStreamImpl", 
+    "s:) CloseAndRecv() (*", "s:, error) {", "call:d.P", "s:if err := x.CloseSend(); err != nil { return nil, err }", 
+    "call:d.P", "s:m := new(", "s:)", "call:d.P", "s:if err := x.MsgRecv(m, ", "call:d.EncodingName", 
+    "s:{}); err != nil { return nil, err }", "call:d.P", "s:return m, nil", "call:d.P", "s:}", 
+    "call:d.P", "call:d.P", "s:func (x *", "call:d.ClientStreamImpl", "s:) CloseAndRecvMsg(m *", 
+    "s:) error {", "call:d.P", "s:if err := x.CloseSend(); err != nil { return err }", "call:d.P", 
+    "s:return x.MsgRecv(m, ", "call:d.EncodingName", "s:{})", "call:d.P", "s:}", "call:d.P"]
+def fp_cmd_protoc_gen_go_drpc_main_drpc_generateServerSignature : List String :=
+  ["s:error", "if", "&&", "u!", "call:method.Desc.IsStreamingServer", "u!", "call:method.Desc.IsStreamingClient", 
+    "call:append", "call:d.Ident", "s:context", "s:Context", "+", "+", "s:(*", "call:d.OutputType", 
+    "s:, error)", "if", "u!", "call:method.Desc.IsStreamingClient", "call:append", "+", "s:*", 
+    "call:d.InputType", "if", "||", "call:method.Desc.IsStreamingServer", "call:method.Desc.IsStreamingClient", 
+    "call:append", "call:d.ServerStreamIface", "return", "+", "+", "+", "+", "s:(", "call:strings.Join", 
+    "s:, ", "s:) "]
+def fp_cmd_protoc_gen_go_drpc_main_drpc_generateUnimplementedServerMethod : List String :=
+  ["call:d.P", "s:func (s *", "call:d.ServerUnimpl", "s:) ", "call:d.generateServerSignature", 
+    "s: {", "if", "&&", "u!", "call:method.Desc.IsStreamingServer", "u!", "call:method.Desc.IsStreamingClient", 
+    "call:d.P", "s:return nil, ", "call:d.Ident", "s:storj.io/drpc/drpcerr", "s:WithCode", "s:(", 
+    "call:d.Ident", "s:errors", "s:New", "s:(\"Unimplemented\"), ", "call:d.Ident", "s:storj.io/drpc/drpcerr", 
+    "s:Unimplemented", "s:)", "call:d.P", "s:return ", "call:d.Ident", "s:storj.io/drpc/drpcerr", 
+    "s:WithCode", "s:(", "call:d.Ident", "s:errors", "s:New", "s:(\"Unimplemented\"), ", "call:d.Ident", 
+    "s:storj.io/drpc/drpcerr", "s:Unimplemented", "s:)", "call:d.P", "s:}", "call:d.P"]
+def fp_cmd_protoc_gen_go_drpc_main_drpc_generateServerReceiver : List String :=
+  ["call:d.P", "+", "+", "s:func (srv interface{}, ctx context.Context, in1, in2 interface{}) (", 
+    "call:d.Ident", "s:storj.io/drpc", "s:Message", "s:, error) {", "if", "&&", "u!", "call:method.Desc.IsStreamingServer", 
+    "u!", "call:method.Desc.IsStreamingClient", "call:d.P", "s:return srv.(", "call:d.ServerIface", 
+    "s:).", "call:d.P", "s:return nil, srv.(", "call:d.ServerIface", "s:).", "call:d.P", "s:(", 
+    "1", "if", "&&", "u!", "call:method.Desc.IsStreamingServer", "u!", "call:method.Desc.IsStreamingClient", 
+    "call:d.P", "s:ctx,", "if", "u!", "call:method.Desc.IsStreamingClient", "call:d.P", "s:in", 
+    "s:.(*", "call:d.InputType", "s:),", "++", "if", "||", "call:method.Desc.IsStreamingServer", 
+    "call:method.Desc.IsStreamingClient", "call:d.P", "s:&", "call:d.ServerStreamImpl", "s:{in", 
+    "s:.(", "call:d.Ident", "s:storj.io/drpc", "s:Stream", "s:)},", "call:d.P", "s:)"]
+def fp_cmd_protoc_gen_go_drpc_main_drpc_generateServerMethod : List String :=
+  ["call:method.Desc.IsStreamingServer", "u!", "call:method.Desc.IsStreamingServer", "call:method.Desc.IsStreamingClient", 
+    "call:d.P", "s:type ", "call:d.ServerStreamIface", "s: interface {", "call:d.P", "call:d.Ident", 
+    "s:storj.io/drpc", "s:Stream", "if", "call:d.P", "s:Send(*", "call:d.OutputType", "s:) error", 
+    "if", "call:d.P", "s:SendAndClose(*", "call:d.OutputType", "s:) error", "if", "call:d.P", "s:Recv() (*", 
+    "call:d.InputType", "s:, error)", "call:d.P", "s:}", "call:d.P", "call:d.P", "s:type ", "call:d.ServerStreamImpl", 
+    "s: struct {", "call:d.P", "call:d.Ident", "s:storj.io/drpc", "s:Stream", "call:d.P", "s:}", 
+    "call:d.P", "call:d.P", "s:func (x *", "call:d.ServerStreamImpl", "s:) GetStream() drpc.Stream {", 
+    "call:d.P", "s:return x.Stream", "call:d.P", "s:}", "call:d.P", "if", "call:d.P", "s:func (x *", 
+    "call:d.ServerStreamImpl", "s:) Send(m *", "call:d.OutputType", "s:) error {", "call:d.P", 
+    "s:return x.MsgSend(m, ", "call:d.EncodingName", "s:{})", "call:d.P", "s:}", "call:d.P", "if", 
+    "call:d.P", "s:func (x *", "call:d.ServerStreamImpl", "s:) SendAndClose(m *", "call:d.OutputType", 
+    "s:) error {", "call:d.P", "s:if err := x.MsgSend(m, ", "call:d.EncodingName", "s:{}); err != nil { return err }", 
+    "call:d.P", "s:return x.CloseSend()", "call:d.P", "s:}", "call:d.P", "if", "call:d.P", "s:func (x *", 
+    "call:d.ServerStreamImpl", "s:) Recv() (*", "call:d.InputType", "s:, error) {", "call:d.P", 
+    "s:m := new(", "call:d.InputType", "s:)", "call:d.P", "s:if err := x.MsgRecv(m, ", "call:d.EncodingName", 
+    "s:{}); err != nil { return nil, err }", "call:d.P", "s:return m, nil", "call:d.P", "s:}", 
+    "call:d.P", "call:d.P", "s:func (x *", "call:d.ServerStreamImpl", "s:) RecvMsg(m *", "call:d.InputType", 
+    "s:) error {", "call:d.P", "s:return x.MsgRecv(m, ", "call:d.EncodingName", "s:{})", "call:d.P", 
+    "s:}", "call:d.P"]
 
 def twirpStatus : List (String × Nat) := [("canceled", 408), ("unknown", 500), ("invalid_argument", 400), ("malformed", 400), ("deadline_exceeded", 408), ("not_found", 404), ("bad_route", 404), ("already_exists", 409), ("permission_denied", 403), ("unauthenticated", 401), ("resource_exhausted", 429), ("failed_precondition", 412), ("aborted", 409), ("out_of_range", 400), ("unimplemented", 501), ("internal", 500), ("unavailable", 503), ("dataloss", 500)]
 def defaultProtocols : List (String × String) := [("*", "twirpProtocol ct=application/proto marshal=protoMarshal unmarshal=protoUnmarshal"),
